@@ -466,7 +466,7 @@ def c19_history(verdict, tier, seed):
     def sig(o):
         if o["status"] != "ok":
             return o["status"].split(":")[0]
-        return "%s/%s" % (o["vjp"].get("digest") or o["vjp"].get("raised"), o["jvp"].get("digest") or o["jvp"].get("raised"))
+        return "%s/%s/%s" % (o["vjp"].get("digest") or o["vjp"].get("raised"), o["jvp"].get("digest") or o["jvp"].get("raised"), o.get("npstate", ""))
     sb = {o["id"]: sig(o) for o in b}
     rows = [{"id": o["id"], "first": sig(o), "second": sb.get(o["id"], "missing")} for o in a]
     nplain = len(rows)
